@@ -303,24 +303,43 @@ pub fn disturbance_pass<T: Sync>(
     check: &(dyn Fn(&T) -> Result<(), String> + Sync),
     to_case: &dyn Fn(&T) -> (String, Value, String),
 ) -> PResult {
-    if let Some(k) = run.cold {
+    if let Some(code) = run.cold {
+        let (k, rep) = (code % 16, code / 16);
         if run.pass_counter != k {
             run.pass_counter += 1;
             return Ok(());
         }
         // cold start: 16 threads released together, their first calls into the crate are the checks
-        const T: usize = 16;
+        // more threads than cores, and thread k delays its first call by k * 2^rep pause instructions:
+        // the relative offsets between first calls sweep from nanoseconds to microseconds
+        const T: usize = 48;
         let len = items.len();
+        // spin start: every thread announces itself and then spins on a flag, so that all of them
+        // enter the crate within a few nanoseconds of each other (a Barrier wakes them one by one)
+        let ready = std::sync::atomic::AtomicUsize::new(0);
+        let go = std::sync::atomic::AtomicBool::new(false);
         let barrier = std::sync::Barrier::new(T);
         let first: std::sync::Mutex<Option<(usize, String)>> = std::sync::Mutex::new(None);
         std::thread::scope(|sc| {
             for k in 0..T {
-                let (first, barrier) = (&first, &barrier);
+                let (first, ready, go, barrier) = (&first, &ready, &go, &barrier);
                 sc.spawn(move || {
-                    barrier.wait();
+                    if rep % 4 == 3 {
+                        // staggered release by the OS (threads wake one after the other)
+                        barrier.wait();
+                    } else {
+                        // simultaneous release
+                        ready.fetch_add(1, std::sync::atomic::Ordering::SeqCst);
+                        while !go.load(std::sync::atomic::Ordering::Acquire) {
+                            std::hint::spin_loop();
+                        }
+                        for _ in 0..(k << (rep % 8)) {
+                            std::hint::spin_loop();
+                        }
+                    }
                     for j in 0..len.min(4000) {
                         // all threads start on the same items (maximum contention on first use), then spread out
-                        let i = if j < 48 { (j * 5) % len } else { (j + k * len / T) % len };
+                        let i = if j < 48 { (rep * 7 + j * 5) % len } else { (j + (k % 16) * len / 16) % len };
                         let msg = match guard(|| check(&items[i])) {
                             Ok(Ok(())) => continue,
                             Ok(Err(m)) => m,
@@ -333,6 +352,12 @@ pub fn disturbance_pass<T: Sync>(
                         return;
                     }
                 });
+            }
+            if rep % 4 != 3 {
+                while ready.load(std::sync::atomic::Ordering::SeqCst) < T {
+                    std::hint::spin_loop();
+                }
+                go.store(true, std::sync::atomic::Ordering::Release);
             }
         });
         match first.into_inner().unwrap() {
@@ -400,9 +425,12 @@ pub fn disturbance_pass<T: Sync>(
     });
     // hot sets: all threads hammer the same few items over and over (a race on one memo line, an
     // entry that is only served from its third request)
-    let hot_rounds = 100usize;
-    let hot_size = 64usize.min(len);
-    let n_sets = 12usize.min(len);
+    // small sets (64 items) for contention on single items, large sets (512) so that several items
+    // of a set share whatever the code under test hashes them into
+    let plan: Vec<(usize, usize, usize)> = if len >= 2000 { vec![(64, 100, 6), (512, 40, 3)] } else { vec![(64usize.min(len), 100, 12usize.min(len))] };
+    let mut hot_total = 0usize;
+    for (hot_size, hot_rounds, n_sets) in plan {
+    hot_total += THREADS * hot_rounds * hot_size * n_sets;
     if first.lock().unwrap().is_none() {
         for set in 0..n_sets {
             let hot: Vec<usize> = (0..hot_size).map(|j| (set * 9973 + j * (len / hot_size + 1) + j * j) % len).collect();
@@ -436,8 +464,9 @@ pub fn disturbance_pass<T: Sync>(
             }
         }
     }
-    let total = (THREADS * rounds * len + THREADS * hot_rounds * hot_size * n_sets) as u64;
-    run.generator("items checked from 8 threads at once", "concurrent stress (not schedule-controlled)", None, total, total, "each thread walks the items from its own offset and runs an API disturbance every 24 checks; then 12 hot sets of 64 items are hammered by all threads 100 times each in different orders; a property-based harness does not own the schedule, so this finds races only with the probability of the interleaving");
+    }
+    let total = (THREADS * rounds * len + hot_total) as u64;
+    run.generator("items checked from 8 threads at once", "concurrent stress (not schedule-controlled)", None, total, total, "each thread walks the items from its own offset and runs an API disturbance every 24 checks; then hot sets (64 items x 100 rounds; for large item lists also 512 items x 40 rounds) are hammered by all threads in different orders; a property-based harness does not own the schedule, so this finds races only with the probability of the interleaving");
     if let Some((i, m)) = first.into_inner().unwrap() {
         let (clause, case, sig) = to_case(&items[i]);
         let id = run.id.clone();
